@@ -299,7 +299,7 @@ PROPS.update({
         "engine": "hist",
         "needs": ["harness", "cli"],
         "technique": "explicit-state breadth-first search over on-disk states with the real subcommands as the transition function",
-        "parts": [hist_part("c17")],
+        "parts": [hist_part("c17"), hist_part("c17_devices")],
         "rule": "states = canonical content of the shared output location; transitions = real runs from an alphabet of "
                 "4-8 runs per output kind (different inputs, k, threads, writer paths, memory ceilings that leave "
                 "temp files of larger chunk x partition grids); search from the empty location and from a location "
